@@ -469,6 +469,9 @@ class PytzModel:
     def __init__(self) -> None:
         self.zones: dict = {}
 
+    def FixedOffset(self, minutes: Any, *a: Any) -> TZ:  # noqa: N802 - pytz's name
+        return TZ("fixed-offset", minutes * MIN)
+
     def timezone(self, name: Any) -> TZ:
         if name in ("UTC", "utc"):
             return UTC
